@@ -442,7 +442,7 @@ impl Check for C08
 	}
 	fn rule(&self) -> String
 	{
-		"(a) generated call-heavy programs (functions with value, word-by-value, array-view, struct-view, slice-pointer, pointer, pointer-to-struct and pointer-to-pointer parameters; callees read, write through reference chains and forward parameters to other callees; the final state of every visible primitive is printed), compiled, run and compared with the reference interpreter, in which views and by-value parameters are immutable and only `&` arguments alias caller storage; (b) 42 illegal shapes, each in one of seven control-flow positions (function body, nested block, then / else / else-if / later else-if arm, nested else), (writes through value / view / word / constant in 1-3 reference steps, `&` of an immutable parameter or constant, whole-array / view / struct copies by initialisation and assignment, pointer parameters given a bare variable / member, `&` of an array member of a structure view / of a constant array coerced to a slice pointer, whole arrays / structures copied into structure and array literals next to call members, writes through the view parameter of an `extern fn` with a body, writes through a constant holding the address of a constant, the address of a view member / constant / value parameter as return value) over 11 integer types, each next to a valid function doing the same through pointers; (c) a fixed control program per integer type with a hand-computed expected output. Oracle: (a) stdout and exit status equal the interpreter's, so caller variables change exactly where the call site wrote `&`; (b) rejected with E530 / E531 / E532 / E533 / E513; (c) exact output. Non-trivial (a): a call with an `&` argument and a callee that writes through or forwards a parameter; distinct by source.".into()
+		"(a) generated call-heavy programs (functions with value, word-by-value, array-view, struct-view, slice-pointer, pointer, pointer-to-struct and pointer-to-pointer parameters; callees read, write through reference chains and forward parameters to other callees; the final state of every visible primitive is printed), compiled, run and compared with the reference interpreter, in which views and by-value parameters are immutable and only `&` arguments alias caller storage; (b) 47 illegal shapes plus `bump(&place)` for an immutable place (value parameter, view member, constant, view element) in twelve expression positions (initialiser, assignment, nested call argument, print! argument, condition, array / structure literal member, operand, cast, index), each in one of seven control-flow positions (function body, nested block, then / else / else-if / later else-if arm, nested else), (writes through value / view / word / constant in 1-3 reference steps, `&` of an immutable parameter or constant, whole-array / view / struct copies by initialisation and assignment, pointer parameters given a bare variable / member, `&` of an array member of a structure view / of a constant array coerced to a slice pointer, whole arrays / structures copied into structure and array literals next to call members, writes through the view parameter of an `extern fn` with a body, writes through a constant holding the address of a constant, constants initialised with whole arrays / structures of other constants, the address of a view member / constant / value parameter as return value) over 11 integer types, each next to a valid function doing the same through pointers; (c) a fixed control program per integer type with a hand-computed expected output. Oracle: (a) stdout and exit status equal the interpreter's, so caller variables change exactly where the call site wrote `&`; (b) rejected with E530 / E531 / E532 / E533 / E513; (c) exact output. Non-trivial (a): a call with an `&` argument and a callee that writes through or forwards a parameter; distinct by source.".into()
 	}
 	fn assumptions(&self) -> Vec<String>
 	{
